@@ -16,7 +16,7 @@ RULE = ("reader: random acyclic bench line lists (1-4 INPUT, 0-2 DFF incl. DFF f
         "non-trivial = at least one gate line / gate node; distinct = canonical input hash")
 EXPLANATION = ("line-AST reader/writer models mirrored on the construction API, proved to denote the bench equations (closed form), tied to io.py by "
                "regenerated tables and correspondence; the oracle evaluates the text's own equations against the circuit that was returned")
-SHARD = 40
+SHARD = 20
 HASHSEEDS = {"quick": [0, 1], "thorough": [0, 1, 2]}
 
 GATE_NAMES = ["buf", "buff", "not", "and", "nand", "or", "nor", "xor", "xnor"]
@@ -391,6 +391,8 @@ LEVEL_NOTE = ("Trusted: Coq kernel + vm_compute, std++, Base/Api.v as a model of
               "for io.py (skeleton comparison, fail closed; the scan patterns are parsed by Python's own pattern parser into regex terms and also compared "
               "literally with the documented ones), the harness renderer and tokeniser. Character level: the scanning layer (comment removal, re.findall "
               "with the four patterns, replace/split) is modelled executably (Model/Regex.v, Model/BenchScan.v) and compared with the harness line list and "
-              "with the real reader on every generated text; proved for all identifiers/operand lists: each pattern recognises and decodes its canonical "
-              "statement where it starts; NOT proved: absence of false matches elsewhere and the findall composition (decided per case).")
+              "with the real reader on every generated text; proved: soundness of the regex model, and for the canonical rendering (one statement per line, "
+              "single blanks) of every well-formed line list that the scans recover the line list and the character-level reader returns the closed-form "
+              "circuit (C15_scan_canonical, C15_read_text_canonical); NOT proved: recovery for non-canonical layouts (extra whitespace, lower-case "
+              "keywords, comments), decided per generated text.")
 TECHNIQUE = "Coq proof (per-line denotation, closed-form reader/writer theorems) + regenerated tables + vm_compute correspondence and denotation oracle"
